@@ -26,6 +26,10 @@ func c06Ops(s []int) []ref.Op {
 }
 
 func checkC06(c *core.Ctx) {
+	defer sweepC06(c)
+	defer soakC06(c)
+	defer sweepConcatN(c, false)
+	defer gridC06(c)
 	sameOperandSequence(c, "sameoperand", [][]int{{3}, {2, 3}, {3, 2, 2}, {2, 1, 3}, {4, 5}}, c06Ops, true)
 	composeCases(c, "compose", composeShapes, consumersMove, true)
 	shapes := enum.ShapeSet(c.Thorough())
